@@ -26,13 +26,16 @@ TRUSTED = [
 ]
 ASSUMPTIONS = [
     "theorems are over an arbitrary real closed field (no rounding); the same model text evaluated on exact dyadic "
-    "rationals is compared with the floating-point implementation within 1e-7*(1+|x|)",
+    "rationals is compared with the floating-point implementation within 1e-7*(s+|x|), s = largest shock variance "
+    "(autocovariances; keeps the comparison meaningful for stds of 1e-6..1e-9) and 1e-7*(1+|x|) (autocorrelations)",
     "uniqueness of the Lyapunov solution (stable Ta_stable) is a premise of the scaling theorem (no spectral theory "
     "in MathComp 1.15); covariance is defined algebraically (loadings on uncorrelated primitive shocks), not "
     "measure-theoretically",
     "generated models have linear equations (declared linear, or non-linear with some variables in logs), 1-4 core "
     "variables with lags <= 3 and occasional leads, optional unit-root block (random walks, I(2), differences, "
-    "cointegrated pairs), 0-3 measurement equations, 1-2 parameter variants; models whose solve() itself refuses "
+    "cointegrated pairs, measurement equations in which the unit root cancels exactly), 0-3 measurement equations, 1-2 "
+    "parameter variants, stds of ordinary size or all scaled by 1e-6..1e-9 (falsifier also: one nearly switched-off shock, "
+    "for which only the self-consistency of get_acorr is demanded); models whose solve() itself refuses "
     "(double unit roots split by rounding) or whose solution is not the unique stable one are rejected (C01)",
 ]
 MANIFEST = {
@@ -68,7 +71,7 @@ def _r(rng, lo, hi, nd=2):
     return round(rng.uniform(lo, hi), nd)
 
 
-def gen_model(rng) -> dict:
+def gen_model(rng, mixed_ok: bool = False) -> dict:
     """A random linear model through source text: structure (JSON-able), parameter and std values per variant."""
     nx = rng.randint(1, 4)
     nvar = 2 if rng.random() < 0.3 else 1
@@ -134,9 +137,38 @@ def gen_model(rng) -> dict:
                 tv += ["v1", "co"]; kinds["v1"] = "N"; kinds["co"] = "S"
                 teq.append({"lhs": "v1", "terms": [[1.0, "w1", 0], [1.0, rng.choice(xs), 0]], "shocks": []})
                 teq.append({"lhs": "co", "terms": [[1.0, "v1", 0], [-1.0, "w1", 0]], "shocks": []})
+    # variables sharing the stochastic trend of w1 with exactly representable coefficients: combinations of them in a
+    # measurement equation can cancel the unit root exactly (cointegration)
+    sharing = {"w1": 1.0} if "w1" in tv else {}
+    if "v1" in tv:
+        sharing["v1"] = 1.0
+    if "w1" in tv and rng.random() < 0.55:
+        if "v1" not in tv:
+            tv.append("v1"); kinds["v1"] = "N"; sharing["v1"] = 1.0
+            teq.append({"lhs": "v1", "terms": [[1.0, "w1", 0], [1.0, rng.choice(xs), 0]], "shocks": []})
+        if rng.random() < 0.5:
+            c2 = rng.choice([2.0, 0.5, -1.0, 1.5])
+            tv.append("v2"); kinds["v2"] = "N"; sharing["v2"] = c2
+            teq.append({"lhs": "v2", "terms": [[c2, "w1", 0], [P(lambda: _r(rng, 0.3, 1.5)), rng.choice(xs), -rng.choice([0, 1])]],
+                        "shocks": []})
     mv, meq, mshocks = [], [], []
-    if rng.random() < 0.75:
+    n_coint = 0
+    if rng.random() < 0.75 or (len(sharing) >= 2 and rng.random() < 0.6):
         for k in range(rng.randint(1, 3)):
+            if len(sharing) >= 2 and rng.random() < (0.6 if n_coint == 0 else 0.2):
+                # a cointegrating measurement variable: a*(cb*A - ca*B) (+ stationary terms) carries no unit root
+                y = f"y{k + 1}"; mv.append(y); n_coint += 1
+                A, B = rng.sample(sorted(sharing), 2)
+                a = rng.choice([1.0, 2.0, 0.5, -1.0])
+                terms = [[a * sharing[B], A, 0], [-a * sharing[A], B, 0]]
+                if rng.random() < 0.5:
+                    terms.append([P(lambda: _r(rng, 0.3, 2.0)), rng.choice([v for v in tv if kinds[v] == "S"]), 0])
+                st = []
+                if rng.random() < 0.7:
+                    ms = f"m{k + 1}"; mshocks.append(ms); st = [[1.0, ms]]
+                meq.append({"lhs": y, "terms": terms, "shocks": st})
+                kinds[y] = "S"
+                continue
             y = f"y{k + 1}"; mv.append(y)
             terms, nonst = [], False
             for _ in range(rng.randint(1, 2)):
@@ -154,15 +186,27 @@ def gen_model(rng) -> dict:
         if s in mshocks and rng.random() < 0.1:
             vals = [0.0] * nvar
         stds["std_" + s] = vals
+    # tiny standard deviations: all of them scaled by 1e-6 .. 1e-9 (variances down to 1e-18), or (falsifier only,
+    # because one nearly switched-off shock next to ordinary ones is ill-conditioned in floating point) one tiny shock
+    tiny = None
+    q = rng.random()
+    if q < 0.13:
+        tiny = rng.choice([1e-6, 1e-7, 1e-8, 1e-9])
+        stds = {k: [x * tiny for x in v] for k, v in stds.items()}
+    elif mixed_ok and q < 0.22:
+        k = "std_" + rng.choice(shocks)
+        stds[k] = [rng.choice([1e-6, 1e-7, 1e-8])] * nvar
+        tiny = "mixed"
     # a share of the stationary models is declared non-linear, with some variables in logs (same equations in
     # log terms; steady state 0 / 1 assigned): covariances are then those of the logs, default std is 0.01
     nonlinear = ("w1" not in tv) and rng.random() < 0.2
     logvars = [x for x in xs if rng.random() < 0.5] if nonlinear else []
     unassigned = []
-    if rng.random() < 0.15:
+    if tiny is None and rng.random() < 0.15:
         k = rng.choice(sorted(stds)); unassigned.append(k)
         stds[k] = [0.01 if nonlinear else 1.0] * nvar       # documented defaults
-    return {"nonlinear": nonlinear, "logvars": logvars, "nvar": nvar, "params": params, "stds": stds, "unassigned": unassigned, "tv": tv, "mv": mv,
+    return {"tiny": tiny, "cointegrating": n_coint, "coint_names": [e["lhs"] for e in meq if len(e["terms"]) >= 2 and
+                                                                     isinstance(e["terms"][0][0], float)], "nonlinear": nonlinear, "logvars": logvars, "nvar": nvar, "params": params, "stds": stds, "unassigned": unassigned, "tv": tv, "mv": mv,
             "shocks": shocks, "mshocks": mshocks, "kinds": kinds, "has_lead": has_lead, "teq": teq, "meq": meq}
 
 
@@ -298,6 +342,7 @@ def run_impl(spec: dict, order: int, style: int) -> dict:
             "nu": nu, "ns": na - nu, "ny": int(s.Z.shape[0]), "ne": int(s.Pa.shape[1]), "nw": int(s.H.shape[1]),
             "Ta": s.Ta, "Pa": s.Pa, "Za": s.Za, "H": s.H, "Ua": s.Ua, "tol": tol, "std_u": std_u, "std_w": std_w,
             "X": np.array(X, dtype=float).reshape(na - nu, na - nu), "xsrc": xsrc,
+            "scale": (max([x * x for x in std_u + std_w] + [0.0]) or 1.0),
             "acov": [np.asarray(a, dtype=float) for a in acov[v]], "acorr": [np.asarray(a, dtype=float) for a in acorr[v]],
         })
     return out
@@ -333,7 +378,7 @@ def coq_case(v: dict, shifts, order: int) -> str:
         "c_stdw := [" + "; ".join(cf(x) for x in v["std_w"]) + "]",
         f"c_X := {mat(v['X'])}",
         "c_shifts := [" + "; ".join(f"{s}%Z" if s >= 0 else f"({s})%Z" for s in shifts) + "]",
-        f"c_order := {order}%nat",
+        f"c_order := {order}%nat", f"c_scale := {cf(v['scale'])}",
         "c_acov := [" + ";\n   ".join(omat(a) for a in v["acov"]) + "]",
         "c_acorr := [" + ";\n   ".join(omat(a) for a in v["acorr"]) + "]",
     ]
@@ -367,7 +412,7 @@ def correspondence(ctx) -> CorrResult:
     per = ctx.scale(13, 16)
     res = CorrResult()
     dist = {"variants": {}, "order": {}, "unit_roots": {}, "alpha_size": {}, "measurement_vars": {}, "style": {},
-            "with_lead": 0, "nonlinear_with_log_variables": 0, "rejected_at_solve": 0, "rejected_not_unique": 0, "nan_rows": 0, "solver_recorded": 0,
+            "with_lead": 0, "nonlinear_with_log_variables": 0, "cointegrating_measurement_variables": 0, "tiny_stds": {}, "rejected_at_solve": 0, "rejected_not_unique": 0, "nan_rows": 0, "solver_recorded": 0,
             "solver_recomputed_by_harness": 0}
     entries = []        # (coq text, meta)
     tries = 0
@@ -404,6 +449,9 @@ def correspondence(ctx) -> CorrResult:
         dist["style"][str(style)] = dist["style"].get(str(style), 0) + 1
         dist["with_lead"] += int(spec["has_lead"])
         dist["nonlinear_with_log_variables"] += int(spec["nonlinear"])
+        dist["cointegrating_measurement_variables"] += spec["cointegrating"]
+        if spec["tiny"]:
+            dist["tiny_stds"][str(spec["tiny"])] = dist["tiny_stds"].get(str(spec["tiny"]), 0) + 1
         if len(res.samples) < 3:
             res.samples.append({"source": source_of(spec), "params": spec["params"], "stds": spec["stds"], "order": order,
                                 "names": out["names"], "acov0_variant0": np.round(out["variants"][0]["acov"][0], 6).tolist()})
@@ -415,7 +463,8 @@ def correspondence(ctx) -> CorrResult:
                 "acorr from acov=); the Coq model receives Ta, Pa, Za, H, Ua, the number of unit roots, the eigenvalue "
                 "tolerance, the std vectors as assigned by the harness (ordered by the shock tokens), the recorded Lyapunov "
                 "output and the token shifts; all orders of acov and acorr are compared entrywise (NaN pattern exactly, "
-                f"numbers within {TOL}*(1+|x|)) after the recorded solver output passed its contract within {CTOL}; nontrivial = "
+                f"acov within {TOL}*(s+|x|) with s the largest shock variance, acorr within {TOL}*(1+|x|)) after the recorded solver "
+                f"output passed its contract within {CTOL}*(s+|x|); nontrivial = "
                 "order >= 1 and at least a 2x2 block of finite autocovariances; distinct = distinct case text")
     texts = [shard_text([e[0] for e in entries[i:i + per]]) for i in range(0, len(entries), per)]
     ctx.log(f"implementation: {len(entries)} cases from {len({e[1]['model'] for e in entries})} models in {time.time() - t0:.1f}s; {len(texts)} Coq shards")
@@ -513,9 +562,17 @@ def independent_acov(T, P, Z, H, su, sw, order, cur):
     return out, status
 
 
-def _close(a, b, tol):
+def _close(a, b, tol, scale=1.0):
     with np.errstate(all="ignore"):
-        return bool(np.all(np.abs(a - b) <= tol * (1 + np.abs(b))))
+        return bool(np.all(np.abs(a - b) <= tol * (scale + np.abs(b))))
+
+
+def rng_factor(spec: dict, order: int) -> float:
+    """Deterministic choice of the rescaling factor from the case itself (replays must repeat it)."""
+    h = (len(spec["params"]) * 7 + len(spec["tv"]) * 3 + order) % 10
+    if spec.get("tiny") not in (None, "mixed"):
+        return [2.5, 0.4][h % 2]               # already tiny: keep the variances representable
+    return [2.5, 0.4, 1e-7, 2.5, 1e-6, 0.4, 1e-8, 2.5, 0.4, 1e-7][h]
 
 
 def check_spec(spec: dict, order: int, info: dict) -> list[Failure]:
@@ -567,12 +624,15 @@ def check_spec(spec: dict, order: int, info: dict) -> list[Failure]:
             sw = [spec["stds"]["std_" + q2n[t.qid]][v] for t in sv.measurement_shocks]
             how = "square solution"
         G, status = independent_acov(T, P, Z, H, su, sw, order, cur)
+        scale = max([x * x for x in list(su) + list(sw)] + [0.0]) or 1.0       # comparisons relative to the shock variances
         info["value_checks"] = info.get("value_checks", 0) + 1
         plain = spec["tv"] + spec["mv"]
         st = [i for i in range(nn) if status[i] == "stable" and spec["kinds"][plain[i]] == "S"]
         un = [i for i in range(nn) if status[i] == "unit" and spec["kinds"][plain[i]] == "N"]
         info["stable_vars"] = info.get("stable_vars", 0) + len(st)
         info["unit_root_vars"] = info.get("unit_root_vars", 0) + len(un)
+        info["cointegrating_measurement_vars"] = info.get("cointegrating_measurement_vars", 0) + \
+            len([i for i in st if plain[i] in spec.get("coint_names", [])])
         vin = dict(inp, variant=v, independent_from=how)
         for j in range(order + 1):
             # NaN exactly on the variables loaded on unit roots
@@ -584,7 +644,7 @@ def check_spec(spec: dict, order: int, info: dict) -> list[Failure]:
             if not np.all(np.isfinite(sub)):
                 fails.append(Failure("acov:stationary-nan", f"order {j}: stationary variables are reported as NaN/inf", vin,
                                      sub.tolist(), G[j][np.ix_(st, st)].tolist(), repro))
-            elif not _close(sub, G[j][np.ix_(st, st)], 1e-6):
+            elif not _close(sub, G[j][np.ix_(st, st)], 1e-6, scale):
                 fails.append(Failure(f"acov:order{min(j, 1)}-value", f"order {j} differs from cov(x_t, x_(t-{j})) implied by the "
                                      f"{how} (MA(infinity) sum)", vin, sub.tolist(), G[j][np.ix_(st, st)].tolist(), repro))
         # Lyapunov equation of the square solution, stationary models (scipy on T, P directly)
@@ -596,10 +656,10 @@ def check_spec(spec: dict, order: int, info: dict) -> list[Failure]:
             curx = [i for i, t in enumerate(sv.transition_variables) if t.shift == 0]
             nx = len(curx)
             info["lyapunov_checks"] = info.get("lyapunov_checks", 0) + 1
-            if not _close(A[0][:nx, :nx], G0[np.ix_(curx, curx)], 1e-6):
+            if not _close(A[0][:nx, :nx], G0[np.ix_(curx, curx)], 1e-6, scale):
                 fails.append(Failure("acov:order0-lyapunov", "order 0 is not the solution of G = T G T' + P Su P' of the square "
                                      "solution", vin, A[0][:nx, :nx].tolist(), G0[np.ix_(curx, curx)].tolist(), repro))
-            if order >= 1 and not _close(A[1][:nx, :nx], (sq.T @ G0)[np.ix_(curx, curx)], 1e-6):
+            if order >= 1 and not _close(A[1][:nx, :nx], (sq.T @ G0)[np.ix_(curx, curx)], 1e-6, scale):
                 fails.append(Failure("acov:order1-value", "order 1 is not T G0 of the square solution", vin,
                                      A[1][:nx, :nx].tolist(), (sq.T @ G0)[np.ix_(curx, curx)].tolist(), repro))
         # acorr = acov scaled by the order-0 standard deviations
@@ -627,26 +687,33 @@ def check_spec(spec: dict, order: int, info: dict) -> list[Failure]:
             for j in range(order + 1):
                 a1 = np.asarray(A1[j], dtype=float)
                 if a1.shape != A[j].shape or np.any(np.isnan(a1) != np.isnan(A[j])) or \
-                        not _close(np.nan_to_num(a1), np.nan_to_num(A[j]), 1e-7):
+                        not _close(np.nan_to_num(a1), np.nan_to_num(A[j]), 1e-7, scale):
                     fails.append(Failure("acov:variants", f"variant {v} of a multi-variant model differs from the singleton model "
                                          "with the same parameters", vin, A[j].tolist(), a1.tolist(), repro))
                     break
-    # scaling all standard deviations by s scales every autocovariance by s^2 (public rescale_stds)
-    sc = 2.5 if order % 2 else 0.4
+    # scaling all standard deviations by s scales every autocovariance by s^2 and leaves the autocorrelations
+    # unchanged (public rescale_stds); also with tiny factors, which push every variance below 1e-12
+    mixed = spec.get("tiny") == "mixed"
+    sc = rng_factor(spec, order)
     m2 = build_model(spec, scale=sc)
     A2 = m2.get_acov(up_to_order=order, unpack_singleton=False)
     R2 = m2.get_acorr(up_to_order=order, unpack_singleton=False)
     info["scaling_checks"] = info.get("scaling_checks", 0) + 1
+    info["tiny_scaling_checks"] = info.get("tiny_scaling_checks", 0) + int(sc < 1e-3)
     for v in range(spec["nvar"]):
+        scale = max([x[v] ** 2 for x in spec["stds"].values()] + [0.0]) or 1.0
         for j in range(order + 1):
             a, a2 = np.asarray(acov[v][j], dtype=float), np.asarray(A2[v][j], dtype=float)
             r, r2 = np.asarray(acorr[v][j], dtype=float), np.asarray(R2[v][j], dtype=float)
-            if np.any(np.isnan(a) != np.isnan(a2)) or not _close(np.nan_to_num(a2), sc * sc * np.nan_to_num(a), 1e-8):
+            if np.any(np.isnan(a) != np.isnan(a2)) or \
+                    not _close(np.nan_to_num(a2), sc * sc * np.nan_to_num(a), 1e-8, sc * sc * scale):
                 fails.append(Failure("acov:scaling", f"rescale_stds({sc}) does not scale order {j} by {sc * sc}",
                                      dict(inp, variant=v, factor=sc), a2.tolist(), (sc * sc * a).tolist(),
                                      f"m.rescale_stds({sc}); m.get_acov(up_to_order={order})"))
                 break
-            if not _close(np.nan_to_num(r2), np.nan_to_num(r), 1e-8):
+            # (one nearly switched-off shock next to ordinary ones: the variances it drives are computed with a large
+            #  relative rounding error, so only the self-consistency of acorr above is demanded of such models)
+            if not mixed and (np.any(np.isnan(r) != np.isnan(r2)) or not _close(np.nan_to_num(r2), np.nan_to_num(r), 1e-7)):
                 fails.append(Failure("acorr:scaling-invariance", f"rescale_stds({sc}) changes the autocorrelations (order {j})",
                                      dict(inp, variant=v, factor=sc), r2.tolist(), r.tolist(),
                                      f"m.rescale_stds({sc}); m.get_acorr(up_to_order={order})"))
@@ -679,7 +746,7 @@ def falsify(ctx, hints):
     it = 0
     while info.get("models", 0) < n + info["from_disagreements"] and it < 3 * n and len(fails) < 25:
         it += 1
-        spec = gen_model(rng)
+        spec = gen_model(rng, mixed_ok=True)
         order = rng.choice([1, 2, 3, 4])
         try:
             fails += check_spec(spec, order, info)
